@@ -303,6 +303,7 @@ def _c04(o, driver, rng):
     k = 0
     while k < n_cross:
         sc = scorr.gen_scenario(rng)
+        sc["sparse_persistent"] = False       # omitting a persistent output is a simulator-side contract breach (mosaik warns); see DESIGN.md
         if scorr.nonuniform_cutoff(sc, False):
             continue
         k += 1
@@ -319,6 +320,7 @@ def _c04(o, driver, rng):
     k = 0
     while k < n_remote:
         sc = scorr.gen_scenario(rng)
+        sc["sparse_persistent"] = False
         if scorr.nonuniform_cutoff(sc, False) or len(sc["sims"]) > 3:
             continue
         k += 1
